@@ -65,14 +65,14 @@ where
 }
 fn pw_case<T>(ty: String, pieces: usize) -> Case
 where
-    T: Nums + AbsDiffEq<Epsilon = f64> + RelativeEq + PartialEq,
+    T: Nums + AbsDiffEq<Epsilon = f64> + RelativeEq + PartialEq + Clone,
 {
     let t2 = format!("Piecewise<{ty}> with {pieces} pieces");
     Case {
         ty: t2.clone(),
         n: pieces * (T::N + 1),
         run: Box::new(move |a, b, eps, rel| {
-            let (x, y) = (pw_from_nums::<T>(a), pw_from_nums::<T>(b));
+            let (x, y) = (pw_with_slack(&pw_from_nums::<T>(a), a.len() % SLACK_MODES), pw_with_slack(&pw_from_nums::<T>(b), (a.len() / 2) % SLACK_MODES));
             let got = guard(|| (x.abs_diff_eq(&y, eps), y.abs_diff_eq(&x, eps), x.relative_eq(&y, eps, rel), y.relative_eq(&x, eps, rel), x == y))
                 .map_err(|p| (format!("approx comparison panicked: {p}"), json!(p)))?;
             verdict(&t2, got, oracle(a, b, eps, rel), all_bits_eq(a, b), a.iter().chain(b.iter()).all(|v| v.is_finite()))
@@ -85,7 +85,7 @@ fn polyn_case(len: usize) -> Case {
         ty: t2.clone(),
         n: len,
         run: Box::new(move |a, b, eps, rel| {
-            let (x, y) = (PolyN(a.to_vec()), PolyN(b.to_vec()));
+            let (x, y) = (PolyN(with_slack(a, a.len() % SLACK_MODES)), PolyN(with_slack(b, (a.len() / 2) % SLACK_MODES)));
             let got = guard(|| (x.abs_diff_eq(&y, eps), y.abs_diff_eq(&x, eps), x.relative_eq(&y, eps, rel), y.relative_eq(&x, eps, rel), x == y))
                 .map_err(|p| (format!("approx comparison panicked: {p}"), json!(p)))?;
             verdict(&t2, got, oracle(a, b, eps, rel), all_bits_eq(a, b), a.iter().chain(b.iter()).all(|v| v.is_finite()))
@@ -301,10 +301,31 @@ pub fn check(thorough: bool, _seed: u64) -> Check {
             let (la, lb) = (unit / 5, unit % 5);
             let eps = *cx.pick(&EPS);
             let rel = *cx.pick(&REL);
-            let kind = cx.choose(3);
+            let kind = cx.choose(4);
             cx.evals(4);
             if la != lb {
                 cx.nontrivial();
+            }
+            if kind == 3 {
+                // PolyN: the longer operand is the shorter one followed by zeros (the same polynomial as a function, another value):
+                // whatever == says about them, == must imply the approximate relations, and those compare number by number
+                let (x, y) = (PolyN(base(la.min(lb))), PolyN({ let mut v = base(la.min(lb)); v.resize(la.max(lb), if cx.flag() { 0.0 } else { -0.0 }); v }));
+                let r = guard(|| (x == y, y == x, x.abs_diff_eq(&y, eps), y.abs_diff_eq(&x, eps), x.relative_eq(&y, eps, rel), y.relative_eq(&x, eps, rel)));
+                return match r {
+                    Err(p) => Err(Fail::new(format!("comparison panicked: {p}"), json!({"len_a": la, "len_b": lb}))),
+                    Ok((e1, e2, a1, a2, r1, r2)) => {
+                        let want = la == lb;
+                        if (a1, a2, r1, r2) != (want, want, want, want) {
+                            Err(Fail::new("PolyN values with different numbers of coefficients compare approximately equal (or identical ones do not)", json!({"len_a": la.min(lb), "len_b": la.max(lb), "results": [a1, a2, r1, r2]})))
+                        } else if (e1 || e2) && !(a1 && r1) {
+                            Err(Fail::new("PolyN: a == b but not approximately equal (== must imply both relations)", json!({"a": fjs(&x.0), "b": fjs(&y.0), "a==b": e1, "b==a": e2, "abs_diff_eq": a1, "relative_eq": r1})))
+                        } else if e1 != e2 {
+                            Err(Fail::new("PolyN: == is not symmetric", json!({"a": fjs(&x.0), "b": fjs(&y.0)})))
+                        } else {
+                            Ok(())
+                        }
+                    }
+                };
             }
             let r: Result<(bool, bool, bool, bool), String> = match kind {
                 0 => {
@@ -339,7 +360,7 @@ pub fn check(thorough: bool, _seed: u64) -> Check {
             }
         }),
         classes: vec![],
-        bounds: json!({"pairs": "PolyN of lengths 0..4 x 0..4; Piecewise<Poly2>, Piecewise<IntOfLogPoly4> with 0..3 x 0..3 pieces (one a prefix of the other), every tolerance incl. +inf"}),
+        bounds: json!({"pairs": "PolyN of lengths 0..4 x 0..4 (unrelated contents, and the shorter one padded with +0 / -0 coefficients, with == consulted); Piecewise<Poly2>, Piecewise<IntOfLogPoly4> with 0..3 x 0..3 pieces (one a prefix of the other), every tolerance incl. +inf"}),
     };
     // differences that sit exactly on a tolerance: |a-b| equal to the rounded product max(|a|,|b|)*max_relative (and its two
     // neighbours), for tolerances that are not powers of two, and |a-b| equal to epsilon (and its neighbours)
